@@ -62,6 +62,14 @@ func vList(tag string) []string {
 	return l[:n]
 }
 
+// vListN: like vList with the length fixed by a case flag.
+func vListN(tag string, n int) []string {
+	verifAssume(n >= 0 && n <= vE)
+	l := []string{verifChoose(tag+"_0", "A", "B", "C"), verifChoose(tag+"_1", "A", "B", "C"), verifChoose(tag+"_2", "A", "B", "C")}
+	verifAssume(l[0] != l[1] && l[0] != l[2] && l[1] != l[2])
+	return l[:n]
+}
+
 type vView struct { // index vE is a sentinel cell: never listed
 	listed [vE + 1]bool
 	status [vE + 1]status
@@ -256,7 +264,7 @@ func VerifH_me() {
 			case !repAvail && v0.status[e] == available && r == 0:
 				verifAssert(v1.status[e] == unavailable, "C14: endpoint reported unavailable without recovery timeout is not unavailable")
 			case !repAvail && v0.status[e] != available:
-				verifAssert(v1.status[e] == v0.status[e] && m.endpoints[vName(e)].futureChange == tm0, "C14: repeated unavailable report changed the recovery window")
+				verifAssert(v1.status[e] == v0.status[e] && m.endpoints[vName(e)].futureChange == tm0, "C13,C14: repeated unavailable report changed the recovery window (an endpoint known to be unavailable must stay unavailable until reported available)")
 			case repAvail:
 				verifAssert(v1.status[e] == available, "C14: endpoint reported available is not available")
 				if v0.status[e] == recovering {
